@@ -18,6 +18,7 @@ class Spec:
     def __init__(self, name, kind, pos=(), named=None, observed=False, uses_meta=False):
         self.name, self.kind, self.pos, self.named = name, kind, list(pos), dict(named or {})
         self.observed, self.uses_meta = observed, uses_meta
+        self.meta_cleared = False    # uses_meta was switched on and off again before use: the node declares NO meta
         self.op_name = name          # which uninterpreted operation the node runs (changes when it `become`s another)
         self.decl_named = tuple(sorted(self.named))    # keywords the operation was declared with (part of its identity)
 
@@ -25,6 +26,7 @@ class Spec:
         c = Spec(self.name, self.kind, list(self.pos), dict(self.named), self.observed, self.uses_meta)
         c.op_name = self.op_name
         c.decl_named = self.decl_named
+        c.meta_cleared = self.meta_cleared
         return c
 
     @property
@@ -174,6 +176,9 @@ class Built:
                 m.add_edge(p, s.name, param_name=k)
             if s.uses_meta:
                 n.uses_meta = True
+            elif getattr(s, 'meta_cleared', False):
+                n.uses_meta = True         # a flag history: declared, then withdrawn through the public setter
+                n.uses_meta = False
             ref[s.name] = n
         return m
 
